@@ -79,6 +79,9 @@ Notation denCsr := (den_csr F zero add).
 Notation denCsc := (den_csc F zero add).
 Notation dropF := (drop F zero small).
 
+Lemma den_app r1 r2 j : denL (r1 ++ r2) j = add (denL r1 j) (denL r2 j).
+Proof. apply (den_line_app F zero one add mul sub opp Fth). Qed.
+
 Lemma le_fst_total (a b : nat * F) : le_fst a b = true \/ le_fst b a = true.
 Proof. unfold le_fst. destruct (Nat.leb_spec (fst a) (fst b)); [left; reflexivity|right; apply Nat.leb_le; lia]. Qed.
 
@@ -111,7 +114,7 @@ Theorem den_coo_sort (A : coo F) i j : denCoo (coo_sort A) i j = denCoo A i j.
 Proof.
   unfold den_coo, coo_sort; simpl.
   apply (sumf_perm F zero one add mul sub opp Fth). apply Permutation_map.
-  apply (Permutation_filter' F zero one add mul sub opp). apply isort_by_perm.
+  apply Permutation_filter'. apply isort_by_perm.
 Qed.
 
 (* ---- move_diag ---- *)
@@ -215,7 +218,7 @@ Proof.
       * f_equal. ring.
       * f_equal. ring.
     + apply Nat.eqb_neq in E. assert (Hlt : c < fst p) by (specialize (Hge p (or_introl eq_refl)); lia).
-      rewrite den_line_app, den_emit.
+      rewrite den_app, den_emit.
       rewrite IH; [|exact Hs'|exact Hp].
       rewrite !den_line_cons.
       assert (Hc : denL l c = zero).
@@ -223,10 +226,10 @@ Proof.
       destruct (c =? j) eqn:Ecj.
       * apply Nat.eqb_eq in Ecj. subst j.
         replace (fst p =? c) with false by (symmetry; apply Nat.eqb_neq; lia).
-        rewrite Hc, drop_zero. f_equal. ring.
+        rewrite Hc, drop_zero. replace (add acc (add zero zero)) with acc by ring. ring.
       * destruct (fst p =? j) eqn:Epj.
-        -- apply Nat.eqb_eq in Epj. ring_simplify. f_equal. rewrite <- Epj. reflexivity.
-        -- ring_simplify. f_equal. ring.
+        -- apply Nat.eqb_eq in Epj. rewrite <- Epj. ring.
+        -- replace (add zero (denL l j)) with (denL l j) by ring. ring.
 Qed.
 
 Theorem den_dedup_line l j : sortedb le_fst l = true -> denL (dedup_line F add small l) j = dropF (denL l j).
@@ -312,9 +315,9 @@ Theorem den_csr_add (A B : csr F) (rd : bool) i j :
 Proof.
   intros Hl. unfold csr_add. destruct rd.
   - rewrite den_csr_remove_duplicates. unfold den_csr; simpl. rewrite nth_zip_rows by exact Hl.
-    rewrite den_line_app. reflexivity.
+    rewrite den_app. reflexivity.
   - rewrite den_csr_sort. unfold den_csr; simpl. rewrite nth_zip_rows by exact Hl.
-    apply den_line_app.
+    apply den_app.
 Qed.
 
 Lemma den_neg_line r j : denL (neg_line F opp r) j = opp (denL r j).
@@ -329,7 +332,7 @@ Theorem den_csr_subtract (A B : csr F) i j :
 Proof.
   intros Hl. unfold csr_subtract. rewrite den_csr_remove_duplicates. unfold den_csr; simpl.
   rewrite nth_zip_rows by (rewrite map_length; exact Hl).
-  rewrite den_line_app. f_equal.
+  rewrite den_app. f_equal.
   rewrite (nth_map_default (neg_line F opp) _ i [] []) by reflexivity.
   rewrite den_neg_line. ring.
 Qed.
